@@ -632,6 +632,22 @@ def dict_variant(draw, desc):
     return root[0]
 
 
+def order_variant(draw, desc):
+    """every dict-like node: random key permutation, *same* kind (matters for OrderedDict and for
+    dict / defaultdict in insertion-ordered mode)"""
+    root, refs = _node_refs(_copy.deepcopy(desc))
+    for c, i in refs:
+        n = c[i]
+        if n[0] in ('dict', 'od', 'dd'):
+            slot = 2 if n[0] == 'dd' else 1
+            if any(op[0] == 'auto' for op in n[slot + 1]):
+                continue
+            perm = draw(st.permutations(list(range(len(n[slot])))))
+            n[slot] = [n[slot][j] for j in perm]
+            n[slot + 1] = []
+    return root[0]
+
+
 NEAR_MISS_EDITS = ('list_tuple', 'arity_plus', 'arity_minus', 'key_rename', 'key_add', 'key_remove',
                    'nt_swap', 'meta_change', 'node_to_leaf', 'none_leaf', 'kind_swap', 'dict_to_cm',
                    'tuple_nt', 'tuple_ss', 'tuple_sub')
@@ -810,7 +826,7 @@ def targeted_near_miss(draw, max_leaves=8, leaf=None):
 
 
 PAIR_MODES = ('same', 'suffix', 'suffix', 'near_miss', 'near_miss_targeted', 'near_miss_targeted', 'dict_variant',
-              'dict_variant', 'nested_dict_variant', 'nested_dict_variant', 'unrelated', 'suffix_variant')
+              'dict_variant', 'nested_dict_variant', 'nested_dict_variant', 'unrelated', 'suffix_variant', 'leafless')
 
 
 @st.composite
@@ -819,6 +835,13 @@ def pair_descs(draw, max_leaves=10, kinds=None, modes=PAIR_MODES, keys=None):
     mode = draw(st.sampled_from(list(modes)))
     sub = tree_descs(max(3, max_leaves // 3), kinds=kinds, keys=keys, max_depth=3, min_leaves=2)
     edit = None
+    if mode == 'leafless':
+        # trees without any leaf (None / empty containers only, under none_is_leaf=False) and a one-edit variant
+        a = draw(tree_descs(max_leaves, kinds=kinds, keys=keys, leaf=st.just(['none'])))
+        b, edit = near_miss(draw, a) if draw(st.integers(0, 3)) else (_copy.deepcopy(a), None)
+        if draw(st.booleans()):
+            a, b = b, a
+        return {'a': a, 'b': b, 'rel': 'near_miss' if edit else 'same', 'edit': edit}
     if mode == 'near_miss_targeted':
         a, b, edit = targeted_near_miss(draw, max_leaves)
         if draw(st.booleans()):
@@ -836,7 +859,7 @@ def pair_descs(draw, max_leaves=10, kinds=None, modes=PAIR_MODES, keys=None):
         b0 = substitute_leaves(draw, a, sub) if draw(st.booleans()) else a
         b, edit = near_miss(draw, b0)
     elif mode == 'dict_variant':
-        b = dict_variant(draw, a)
+        b = dict_variant(draw, a) if draw(st.integers(0, 2)) else order_variant(draw, substitute_leaves(draw, a, sub))
     elif mode == 'suffix_variant':
         b = dict_variant(draw, substitute_leaves(draw, a, sub, at_least_one=True))
     elif mode == 'nested_dict_variant':
